@@ -147,6 +147,29 @@ def make_pool(rec, shared):
         def __init__(self, n=None):
             pass
 
+        def map_async(self, f, items, chunksize=None, callback=None, error_callback=None):
+            # tasks run at once (recorded like those of map); the handle behaves as multiprocessing.pool.MapResult
+            try:
+                value, exc = self.map(f, items, chunksize), None
+            except Exception as ex:
+                value, exc = None, ex
+
+            class Handle:
+                def wait(self, timeout=None):
+                    return None
+
+                def ready(self):
+                    return True
+
+                def successful(self):
+                    return exc is None
+
+                def get(self, timeout=None):
+                    if exc is not None:
+                        raise exc
+                    return value
+            return Handle()
+
         def map(self, f, items, chunksize=None):
             items = list(items)
             # multiprocessing.pool.Pool.map: tasks are cut into chunks of `chunksize` items; a chunk size of 0 yields
